@@ -19,11 +19,14 @@ T(h, m, s) == [t |-> "time", h |-> h, m |-> m, s |-> s]
 D(k) == [t |-> "date", v |-> k]
 Bad(k) == [t |-> "bad", v |-> k]
 
+(* r ++ upd: the record r with the fields of upd replaced *)
+r ++ upd == upd @@ r
+
 (* ---------------- the base feed: well formed, every column present, every value explicit ---------------- *)
 Agency(id, name, tz) == [agency_id |-> Id(id), agency_name |-> Id(name), agency_url |-> Id(1), agency_timezone |-> Id(tz),
                          agency_lang |-> Id(1), agency_phone |-> Id(1), agency_fare_url |-> Id(2), agency_email |-> Id(1)]
 Route(id, ag, typ) == [route_id |-> Id(id), agency_id |-> Id(ag), route_color |-> Id(3), route_text_color |-> Id(4), route_short_name |-> Id(7),
-                       route_long_name |-> Id(2), route_desc |-> Id(3), route_type |-> Num(typ), route_url |-> Id(1), route_sort_order |-> Num(7),
+                       route_long_name |-> Id(2), route_desc |-> Id(3), route_type |-> Num(typ), route_url |-> Id(1), route_sort_order |-> Num(10 - id),
                        continuous_pickup |-> Num(0), continuous_drop_off |-> Num(2)]
 Stop(id, parent, typ, wc) == [stop_id |-> Id(id), stop_code |-> Id(1), stop_name |-> Id(1), stop_desc |-> Id(4), zone_id |-> Id(1), stop_lon |-> Dec(2),
                               stop_lat |-> Dec(3), stop_url |-> Id(2), location_type |-> Num(typ), parent_station |-> parent, stop_timezone |-> Id(3),
@@ -49,12 +52,9 @@ BaseFeed ==
  @@ "calendar_dates.txt" :> <<CalDate(3, D(6), Num(1)), CalDate(2, D(3), Num(2)), CalDate(3, D(1), Num(2)), CalDate(2, D(4), Num(1))>>
  @@ "shapes.txt" :> <<ShapePt(3, 2, 3, 2), ShapePt(1, 10, 1, 1), ShapePt(3, 1, 5, 6), ShapePt(1, 9, 8, 9)>>
  @@ "trips.txt" :> <<Trip(1, 1, 3, Id(3)), Trip(2, 3, 2, Blank)>>
- @@ "frequencies.txt" :> <<Freq(2, T(6, 0, 0), T(9, 30, 0), 600), Freq(2, T(9, 30, 0), T(25, 0, 0), 1200)>>
+ @@ "frequencies.txt" :> <<Freq(2, T(6, 0, 0), T(9, 30, 0), 600) ++ [exact_times |-> Num(0)], Freq(2, T(9, 30, 0), T(25, 0, 0), 1200)>>
  @@ "stop_times.txt" :> <<StopTime(1, 4, 2, T(8, 0, 0), T(8, 1, 30)), StopTime(2, 1, 10, T(23, 59, 59), T(24, 0, 0)),
                           StopTime(1, 5, 9, T(9, 5, 3), T(9, 5, 3)), StopTime(2, 5, 9, T(0, 0, 0), T(0, 0, 1)), StopTime(1, 1, 100, T(47, 59, 59), T(100, 0, 0))>>
-
-(* r ++ upd: the record r with the fields of upd replaced *)
-r ++ upd == upd @@ r
 
 SetCell(feed, f, n, col, c) == [feed EXCEPT ![f][n][col] = c]
 SetRows(feed, f, rows) == [feed EXCEPT ![f] = rows]
@@ -131,6 +131,12 @@ PoolC03refs(z) ==
                        HTrip(Id(5), Id(3), Id(3), Id(4))}, 2, 3)}
     \cup {MkCase(SetRows(SetRows(BaseFeed, "agency.txt", <<Agency(1, 1, 1)>>), "routes.txt", rq), FALSE, NoBase, FALSE, "", 0) :
             rq \in SeqsOf({HRoute(Id(1), Id(1)), HRoute(Id(3), Blank), HRoute(Id(3), Id(2)), HRoute(Id(1), Id(3))}, 1, 2)}
+    \cup (* ids that differ only by a trailing blank are different ids (tokens 5-7 of the id pools): references to them dangle *)
+    {MkCase(SetRows(SetRows(BaseFeed, "routes.txt", rq), "trips.txt", tq), FALSE, NoBase, FALSE, "", 0) :
+        rq \in SeqsOf({HRoute(Id(1), Id(1)), HRoute(Id(5), Id(1)), HRoute(Id(3), Id(4))}, 1, 2),
+        tq \in SeqsOf({HTrip(Id(1), Id(5), Id(3), Id(3)), HTrip(Id(2), Id(1), Id(6), Id(5)), HTrip(Id(6), Id(1), Id(3), Id(3))}, 1, 2)}
+    \cup {MkCase(SetRows(SetRows(BaseFeed, "stop_times.txt", BaseFeed["stop_times.txt"] \o <<StopTime(1, 7, 50, T(1, 0, 0), T(1, 0, 0)), StopTime(6, 1, 51, T(1, 0, 0), T(1, 0, 0))>>),
+                          "transfers.txt", <<Transfer(7, 4, 1), Transfer(4, 7, 1), Transfer(1, 4, 1)>>), FALSE, NoBase, FALSE, "", 0)}
 
 (* ---------------- C08: row order of stop_times.txt and shapes.txt ---------------- *)
 Perms(n) == {p \in [1..n -> 1..n] : \A a, b \in 1..n : p[a] = p[b] => a = b}
@@ -168,17 +174,25 @@ BadRows(f) ==
       [] f = "calendar_dates.txt" -> {CalDate(3, Bad(3), Num(1)), CalDate(4, Blank, Num(1)), CalDate(3, D(8), Num(3)), CalDate(5, D(8), Num(0)), CalDate(3, D(8), Blank),
                                       [service_id |-> Blank, date |-> D(8), exception_type |-> Num(1)]}
       [] f = "shapes.txt" -> {ShapePt(3, 5, 1, 1) ++ [shape_pt_lat |-> Bad(1)], ShapePt(3, 5, 1, 1) ++ [shape_pt_lon |-> Blank], ShapePt(2, 5, 1, 1) ++ [shape_pt_sequence |-> Bad(4)],
-                              ShapePt(3, 5, 1, 1) ++ [shape_id |-> Blank]}
+                              ShapePt(3, 5, 1, 1) ++ [shape_id |-> Blank], ShapePt(3, 5, 1, 1) ++ [shape_pt_sequence |-> Bad(11)]}
       [] f = "trips.txt" -> {Trip(3, 4, 3, Blank), Trip(3, 1, 5, Blank), Trip(3, 1, 3, Blank) ++ [trip_id |-> Blank], Trip(3, 1, 3, Blank) ++ [route_id |-> Blank]}
       [] f = "frequencies.txt" -> {Freq(5, T(1, 0, 0), T(2, 0, 0), 60), Freq(2, Bad(2), T(2, 0, 0), 60), Freq(2, T(1, 0, 0), Blank, 60),
-                                   Freq(2, T(1, 0, 0), T(2, 0, 0), 60) ++ [headway_secs |-> Bad(1)]}
+                                   Freq(2, T(1, 0, 0), T(2, 0, 0), 60) ++ [headway_secs |-> Bad(1)], Freq(2, T(1, 0, 0), T(2, 0, 0), 60) ++ [headway_secs |-> Bad(11)],
+                                   Freq(2, Bad(12), T(2, 0, 0), 60)}
       [] f = "stop_times.txt" -> {StopTime(5, 4, 50, T(1, 0, 0), T(1, 0, 0)), StopTime(1, 6, 50, T(1, 0, 0), T(1, 0, 0)), StopTime(1, 4, 50, Blank, Blank),
                                   StopTime(1, 4, 50, Bad(2), Bad(1)), StopTime(1, 4, 50, T(1, 0, 0), T(1, 0, 0)) ++ [stop_sequence |-> Bad(6)],
                                   StopTime(1, 4, 50, T(1, 0, 0), T(1, 0, 0)) ++ [stop_sequence |-> Blank], StopTime(1, 4, 50, T(1, 0, 0), T(1, 0, 0)) ++ [trip_id |-> Blank],
-                                  StopTime(2, 4, 50, T(1, 0, 0), T(1, 0, 0)) ++ [stop_id |-> Blank]}
+                                  StopTime(2, 4, 50, T(1, 0, 0), T(1, 0, 0)) ++ [stop_id |-> Blank],
+                                  StopTime(1, 4, 50, Bad(12), Bad(12))}    \* (stop_sequence is a Go int: 2^32+1 is a valid sequence there, unlike in shapes and frequencies)
 PoolC09(z) ==
     UNION {{MkCase(SetRows(BaseFeed, f, InsRow(BaseFeed[f], k, b)), FALSE, <<BaseFeed>>, FALSE, "C09.inert", 0)
               : k \in 0..2, b \in BadRows(f)} : f \in Range(Files)}
+(* one accepted agency only: a route naming an agency that does not exist is rejected all the same *)
+OneAgency == SetRows(BaseFeed, "agency.txt", <<Agency(1, 1, 1)>>)
+PoolC09oneAgency(z) ==
+    {MkCase(SetRows(ba, "routes.txt", InsRow(ba["routes.txt"], k, b)), FALSE, <<ba>>, FALSE, "C09.inert", 0)
+        : k \in 0..2, b \in {Route(4, 3, 1), Route(4, 2, 1), Route(4, 4, 1)},
+          ba \in {OneAgency, SetRows(BaseFeed, "agency.txt", <<Agency(1, 1, 1), Agency(2, 2, 3) ++ [agency_name |-> Blank]>>)}}
 PoolC09multiline(z) ==
     {MkCase(SetRows(BaseFeed, "agency.txt", InsRow(<<Agency(1, 3, 1), Agency(2, 2, 3)>>, k, b)), FALSE, <<SetRows(BaseFeed, "agency.txt", <<Agency(1, 3, 1), Agency(2, 2, 3)>>)>>, FALSE, "C09.inert", 2)
         : k \in 0..2, b \in BadRows("agency.txt") \cup {Agency(3, 3, 1) ++ [agency_url |-> Blank]}}
@@ -207,13 +221,14 @@ PoolC10(z) ==
     \cup {MkCase(DropCol(BaseFeed, "stop_times.txt", a), FALSE,
                  <<AllRows(BaseFeed, "stop_times.txt", a, Blank)>>, FALSE, "C10.equal", 1) : a \in {"arrival_time", "departure_time"}}
     \cup (* wheelchair inheritance: child value x parent value x parent type x own type *)
-    {MkCase(SetRows(BaseFeed, "stops.txt", <<Stop(3, Blank, pt, pw), Stop(4, Id(3), ct, cw), Stop(5, Id(3), 0, cw2), Stop(1, par, 0, 0)>>), TRUE,
-            <<SetRows(BaseFeed, "stops.txt", <<Stop(3, Blank, pt, pw), Stop(4, Id(3), ct, cw), Stop(5, Id(3), 0, cw2), Stop(1, par, 0, 0)>>)>>, FALSE, "C10.inherit", 0)
+    {MkCase(SetRows(BaseFeed, "stops.txt", <<Stop(3, Blank, pt, pw), Stop(4, Id(3), ct, cw) ++ [stop_timezone |-> Blank], Stop(5, Id(3), 0, cw2) ++ [stop_timezone |-> Blank, stop_desc |-> Blank], Stop(1, par, 0, 0)>>), TRUE,
+            <<SetRows(BaseFeed, "stops.txt", <<Stop(3, Blank, pt, pw), Stop(4, Id(3), ct, cw) ++ [stop_timezone |-> Blank], Stop(5, Id(3), 0, cw2) ++ [stop_timezone |-> Blank, stop_desc |-> Blank], Stop(1, par, 0, 0)>>)>>, FALSE, "C10.inherit", 0)
         : pt \in {0, 1, 2}, pw \in 0..2, ct \in {0, 2, 4}, cw \in 0..2, cw2 \in {0, 1}, par \in {Blank, Id(4)}}
 
 (* ---------------- C11: calendars ---------------- *)
 CalRows == {Calendar(3, 2, 5), Calendar(1, 3, 4), Calendar(3, 1, 8) ++ [monday |-> Num(0), sunday |-> Num(1)], Calendar(2, 4, 4) ++ [start_date |-> Bad(3)],
-            Calendar(3, 7, 2), Calendar(2, 1, 8) ++ [wednesday |-> Blank], Calendar(3, 1, 8) ++ [sunday |-> Blank], Calendar(2, 3, 6) ++ [end_date |-> Blank]}
+            Calendar(3, 7, 2), Calendar(2, 1, 8) ++ [wednesday |-> Blank], Calendar(3, 1, 8) ++ [sunday |-> Blank], Calendar(2, 3, 6) ++ [end_date |-> Blank],
+            Calendar(2, 1, 8) ++ [monday |-> Bad(13), tuesday |-> Bad(14), wednesday |-> Num(0), friday |-> Num(2)]}   \* only the digit 1 sets a weekday
 ExcRows == {CalDate(s, D(d), Num(typ)) : s \in {3, 2}, d \in {1, 3, 5, 7}, typ \in {1, 2}} \cup {CalDate(3, D(8), Num(3)), CalDate(4, D(6), Num(0)), CalDate(2, Bad(3), Num(1))}
 TzAgencies == {<<Agency(1, 1, 1), Agency(2, 2, 3)>>, <<Agency(2, 2, 3), Agency(1, 1, 1)>>, <<Agency(1, 1, 4), Agency(2, 2, 5)>>, <<Agency(1, 1, 5)>>,
                <<Agency(3, 7, 1) ++ [agency_url |-> Blank], Agency(2, 2, 3)>>}
@@ -268,7 +283,7 @@ PoolStructure(z) ==
           WithEmpty(MkCase(BaseFeed, FALSE, NoBase, FALSE, "", 0), <<"transfers.txt", "shapes.txt">>)}
 
 Cases == CASE Pool = "C01" -> PoolC01(0) [] Pool = "C03stops" -> PoolC03stops(0) [] Pool = "C03refs" -> PoolC03refs(0) [] Pool = "C08" -> PoolC08(0) [] Pool = "C08files" -> PoolC08files(0) [] Pool = "C08shape5" -> PoolC08shape5(0)
-           [] Pool = "C09" -> PoolC09(0) \cup PoolC09multiline(0) [] Pool = "C09pairs" -> PoolC09pairs(0) [] Pool = "C10" -> PoolC10(0) [] Pool = "C11" -> PoolC11(0) [] Pool = "C11q" -> PoolC11(1) [] Pool = "C11b" -> PoolC11b(0) [] Pool = "C05cyc" -> PoolC05cyc(0) [] Pool = "structure" -> PoolStructure(0) [] Pool = "C05" -> PoolC05(Garbage) [] Pool = "C05q" -> PoolC05(GarbageQuick)
+           [] Pool = "C09" -> PoolC09(0) \cup PoolC09multiline(0) \cup PoolC09oneAgency(0) [] Pool = "C09pairs" -> PoolC09pairs(0) [] Pool = "C10" -> PoolC10(0) [] Pool = "C11" -> PoolC11(0) [] Pool = "C11q" -> PoolC11(1) [] Pool = "C11b" -> PoolC11b(0) [] Pool = "C05cyc" -> PoolC05cyc(0) [] Pool = "structure" -> PoolStructure(0) [] Pool = "C05" -> PoolC05(Garbage) [] Pool = "C05q" -> PoolC05(GarbageQuick)
 
 (* ---------------- the machine ---------------- *)
 Init == /\ case \in Cases /\ fi = 1 /\ ri = 1 /\ st = EmptySt /\ pc = "rows"
